@@ -310,16 +310,6 @@ Definition run_hier_op (b : sx) (op : sx) : sx :=
 (** spec: ancestors-or-self of a digest, most specific first *)
 Definition ancestors (d : digest) : list digest :=
   map (fun p => (join p, snd d)) (rev (prefixes (split (fst d)))).
-(** the most specific ancestor that answers anything but NOT_FOUND decides *)
-Fixpoint first_answer (b : sx) (chain : list digest) : outcome digest :=
-  match chain with
-  | [] => Err NOT_FOUND
-  | a :: r => match hb_get b a with
-              | Err e => if e =? NOT_FOUND then first_answer b r else Err e
-              | x => x
-              end
-  end.
-
 (** Clauses: 11 Get did not return the object of the most specific ancestor that has it
     (or NOT_FOUND although an ancestor has it, or swallowed another error);
     12 GetFromComposite likewise; 13 FindMissing result is not "missing under the name
@@ -328,13 +318,13 @@ Definition mon_hier_op (b : sx) (op ob : sx) : list Z :=
   let code := sx_Z (sx_nth ob 0) in
   let data := sx_nth ob 1 in
   match sx_Z (sx_nth op 0) with
-  | 0 => match first_answer b (ancestors (dec_dg (sx_nth op 1))) with
+  | 0 => match first_answer (hb_get b) (ancestors (dec_dg (sx_nth op 1))) with
          | Ok a => if (code =? 0) && sx_eqb data (enc_dg a) then [] else [11]
          | Err e => if code =? e then [] else [11]
          | Panic => []
          end
   | 1 => let inst := dec_str (sx_nth op 1) in
-         match first_answer b (ancestors (inst, sx_N (sx_nth op 2))) with
+         match first_answer (hb_get b) (ancestors (inst, sx_N (sx_nth op 2))) with
          | Ok a => if (code =? 0) && sx_eqb data (enc_dg (fst a, sx_N (sx_nth op 3))) then [] else [12]
          | Err e => if code =? e then [] else [12]
          | Panic => []
